@@ -548,3 +548,52 @@ func collectsAll(p *an.Prog, fn *ssa.Function, depth int) (*an.Loop, []ssa.Value
 	}
 	return l, graphs, true
 }
+
+// isBodyStage reports whether v denotes the stage the goroutine body works
+// for: the body's stage parameter, or — when the body is a closure that
+// captured the variable — what that variable holds.
+func (s *sched) isBodyStage(v ssa.Value, st *an.State) bool {
+	if s.bodyStage == nil {
+		return false
+	}
+	cands := []ssa.Value{v}
+	if st != nil {
+		cands = append(cands, st.Root(v))
+	}
+	var held []ssa.Value
+	held = append(held, s.bodyStage)
+	if fv, ok := s.bodyStage.(*ssa.FreeVar); ok {
+		// the captured cell: what was stored into it where the closure was made
+		for _, src := range an.Sources(s.launch.Call.Value) {
+			mc, ok := src.(*ssa.MakeClosure)
+			if !ok {
+				continue
+			}
+			for i, b := range mc.Bindings {
+				if i < len(s.body.FreeVars) && s.body.FreeVars[i] == fv {
+					held = append(held, b)
+					if al, ok := b.(*ssa.Alloc); ok && al.Referrers() != nil {
+						for _, r := range *al.Referrers() {
+							if sto, ok := r.(*ssa.Store); ok && sto.Addr == ssa.Value(al) {
+								held = append(held, sto.Val)
+							}
+						}
+					}
+				}
+			}
+		}
+	}
+	for _, c := range cands {
+		for _, h := range held {
+			if c == h || an.SameValue(c, h) {
+				return true
+			}
+			for _, r := range an.ResolveAll(c) {
+				if r == h {
+					return true
+				}
+			}
+		}
+	}
+	return false
+}
